@@ -110,6 +110,12 @@ class Mode:
     def byte(self, name):
         return self.int(name, 0, 255)
 
+    def floordiv(self, x, c):
+        """z3 Int term for floor(x / c), c a positive constant (defined by its axioms in symbolic mode)"""
+        if self.sym:
+            return core.int_divmod_const(x, c)[0]
+        return z3.IntVal(z3.simplify(x).as_long() // c)
+
     def assume(self, cond):
         if self.sym:
             core.cur().assume(Z(cond))
@@ -171,6 +177,23 @@ class Mode:
         self.reached.add(name)
 
 
+def run_harness(h, m):
+    """run a harness; an exception escaping from the code under test is itself an obligation failure
+    ('unexpected_exception'), not a crash of the machinery"""
+    try:
+        h(m)
+    except (AssumptionFailed, Unreplayable):
+        raise
+    except Exception as e:
+        import traceback as _tb
+        tb = _tb.extract_tb(e.__traceback__)
+        where = f"{tb[-1].filename.split('/')[-1]}:{tb[-1].lineno}" if tb else "?"
+        if any("/repo/" in fr.filename for fr in tb) or m.sym is False:
+            m.prove("unexpected_exception", False, f"{type(e).__name__}: {e} at {where}")
+        else:
+            raise
+
+
 class AssumptionFailed(Exception):
     pass
 
@@ -188,21 +211,22 @@ class E1Runner:
         self.validate_witnesses = validate_witnesses
         run.engines.add("E1 symex (z3 %s, BV width %d)" % (z3.get_version_string(), WIDTH))
 
-    def check(self, harness, prefix, expect=(), max_paths=4000, key=None, timeout_ms=60000):
+    def check(self, harness, prefix, expect=(), max_paths=4000, key=None, timeout_ms=60000, budget_s=None):
         """Explore harness; obligations are named '<prefix>.<name>'.
         expect: obligation names that must be reached by at least one path."""
         self.cur_h = harness
         self.cur_prefix = prefix
         self.st = {}  # name -> dict
         self.key = key
-        ctx = Ctx(max_paths=max_paths, timeout_ms=timeout_ms)
+        ctx = Ctx(max_paths=max_paths, timeout_ms=timeout_ms,
+                  budget_s=budget_s or (300 if self.run.tier == "quick" else 1500))
         t0 = time.time()
         nvalid = [0]
 
         def body():
             m = Mode(self, harness)
             try:
-                harness(m)
+                run_harness(harness, m)
             finally:
                 self._end_path(m, nvalid)
             return None
@@ -244,6 +268,44 @@ class E1Runner:
         for mname in self.modules:
             if mname in rewrite.SOURCES:
                 self.run.functions[mname] = "sha1:" + rewrite.SOURCES[mname][1]
+
+    def check_many(self, specs, workers=12):
+        """specs: list of dict(harness=, prefix=, expect=, ...kwargs of check).  Each harness is explored in
+        its own forked process (E1 is single-threaded); obligations are merged into self.run."""
+        import multiprocessing as mp
+        from concurrent.futures import ProcessPoolExecutor
+        from .report import Run
+        if len(specs) <= 1:
+            for sp in specs:
+                self.check(**sp)
+            return
+        ctx = mp.get_context("fork")
+        with ProcessPoolExecutor(max_workers=min(workers, len(specs)), mp_context=ctx) as ex:
+            futs = [ex.submit(_worker, self.run.pid, self.run.tier, self.run.seed, sp) for sp in specs]
+            for sp, f in zip(specs, futs):
+                try:
+                    res = f.result()
+                except Exception as e:
+                    self.run.internal_errors.append(f"{sp['prefix']}: worker failed: {type(e).__name__}: {e}")
+                    continue
+                self._merge(res)
+
+    def _merge(self, res):
+        run = self.run
+        for name, o in res["obl"].items():
+            run.obl[name] = o
+            if o["status"] == "inconclusive":
+                print(f"INCONCLUSIVE property={run.pid} obligation={name} reason={o['detail']}", flush=True)
+        run.states += res["states"]
+        run.transitions += res["transitions"]
+        run.solver_s += res["solver_s"]
+        run.validated += res["validated"]
+        run.violations += res["violations"]
+        run.stubs |= set(res["stubs"])
+        run.functions.update(res["functions"])
+        run.internal_errors += res["internal_errors"]
+        for s_ in res["samples"]:
+            run.sample(s_)
 
     # ------------------------------------------------------------------
     def _model_values(self, ctx, model):
@@ -322,7 +384,7 @@ class E1Runner:
         saved = Ctx.current
         Ctx.current = None
         try:
-            self.cur_h(m)
+            run_harness(self.cur_h, m)
         except AssumptionFailed:
             return None
         finally:
@@ -373,6 +435,22 @@ class E1Runner:
                     f"engine validation: concrete run disagrees with the symbolic verdict at {vals}")
 
 
+def _worker(pid, tier, seed, spec):
+    from .report import Run
+    import io as _io
+    import contextlib
+    import os
+    os.environ["VF_E1_WORKER"] = "1"
+    run = Run(pid, tier, seed)
+    r = E1Runner(run)
+    buf = _io.StringIO()
+    # INCONCLUSIVE lines are re-printed by the parent; VIOLATION / KNOWN-FINDING lines go straight to stdout
+    r.check(**spec)
+    return dict(obl=run.obl, states=run.states, transitions=run.transitions, solver_s=run.solver_s,
+                validated=run.validated, violations=run.violations, stubs=sorted(run.stubs | models.STUBS_USED),
+                functions=run.functions, internal_errors=run.internal_errors, samples=run.samples)
+
+
 REPLAY_TMPL = '''# replay of a solver-found counterexample: runs the harness in concrete mode
 # against the unmodified modules under /repo with real io.BytesIO streams.
 import sys, json, os
@@ -389,7 +467,7 @@ def replay_main(hname, vals, ob, full, what):
     runner.modules = set()
     m = Mode(runner, h, values=vals)
     try:
-        h(m)
+        run_harness(h, m)
     except AssumptionFailed:
         print("assumption failed for these values; not a counterexample")
         return 0
